@@ -835,6 +835,9 @@ def create_binary_event_files(event_file,
         def _callback(result):
             nonlocal number_events
             number_events += result
+            if result == 0:
+                # the previous file ended exactly at the last event
+                pool.close()
             if verbose:
                 print("finished job")
                 sys.stdout.flush()
